@@ -46,6 +46,7 @@ pub struct Ctx {
     pub distinct: HashSet<u64>,
     pub samples: Vec<Value>,
     pub violations: u64,
+    pub viol_by_sub: BTreeMap<String, u64>,
     pub harness_errors: u64,
     pub cur_regime: String,
     pub cur_case: u64,
@@ -86,7 +87,10 @@ impl Ctx {
     }
     pub fn violation(&mut self, sub: &str, sig: &str, detail: Value) {
         self.violations += 1;
-        if self.violations <= 25 {
+        let per_sub = self.viol_by_sub.entry(sub.to_string()).or_insert(0);
+        *per_sub += 1;
+        // print at most 3 events per sub-check (all are counted), 300 in total
+        if *per_sub <= 3 && self.viol_by_sub.len() <= 100 {
             let ev = json!({
                 "t": "violation", "prop": self.prop, "sub": sub, "sig": sig,
                 "regime": self.cur_regime, "case": self.cur_case, "seed": self.seed,
